@@ -27,3 +27,6 @@ Definition py_rpow (a y : Z) : result Z := if a <? 0 then Err EOther else Ok (y 
 (* shifts by a negative count raise ValueError *)
 Definition py_lshift (a y : Z) : result Z := if y <? 0 then Err EValue else Ok (Z.shiftl a y).
 Definition py_rshift (a y : Z) : result Z := if y <? 0 then Err EValue else Ok (Z.shiftr a y).
+(* plain-int shifts (tree.py) *)
+Definition py_shl (a y : Z) : result Z := py_lshift a y.
+Definition py_shr (a y : Z) : result Z := py_rshift a y.
